@@ -71,8 +71,8 @@ class Gen:
         self.used.add({"boolop": "boolop", "binop": "binop", "neg": "unary", "ev": "call_value", "cmp": "cmp", "attr": "attr", "subscr": "subscr", "not": "not"}[kind])
         if kind == "boolop":
             n = 2
-            if "boolop_multi" in self.feats and self.rng.random() < 0.4:
-                n = 3
+            if "boolop_multi" in self.feats and self.rng.random() < 0.5:
+                n = self.rng.choice([3, 3, 4, 5])
                 self.used.add("boolop_multi")
             return Node("boolop", op=self.rng.choice(["and", "or"]), vs=[self.operand(depth + 1) for _ in range(n)])
         if kind == "binop":
@@ -128,7 +128,7 @@ class Gen:
             return Node("cmp", l=self.atom(), rs=[self.atom()])
         if s == "boolop":
             self.used.add("boolop_test")
-            n = 3 if ("boolop_multi" in self.feats and self.rng.random() < 0.3) else 2
+            n = self.rng.choice([3, 4, 4, 5]) if ("boolop_multi" in self.feats and self.rng.random() < 0.4) else 2
             vs = []
             for _ in range(n):
                 r = self.rng.random()
